@@ -79,7 +79,7 @@ def worker(args):
 
 def run(ctx):
     server_bin("rel")
-    nprog = 40 if ctx.quick else 3000
+    nprog = 120 if ctx.quick else 3000
     for p in pmap(worker, [("%s/%d" % (ctx.seed, i), nprog) for i in range(NCPU)]): ctx.merge(p)
     ctx.rule = ("syntactically valid generated programs (well-typed and ill-typed), all layouts incl. CRLF, comments in leading positions, literal corner cases (007, 0x0a, ''', '\\n', 2^32-1, "
                 "overflowing literals), insertSpaces x tabSize 0..8: one whole-document edit; non-comment token sequence (kind, literal value) unchanged; same diagnostics (message, culprit token) "
